@@ -353,9 +353,9 @@ def run_shard(shard, rec):
                 e = rng.choice([["*", ["cnum", 0.0, 1.0], e], ["max", e, ["num", 1]], ["min", ["var", "x"], e]])
             if size(e) > 80:
                 continue
-            if (has_if_arg_before_arg(e) or has_left_nested_power(e)) and rng.random() < 0.9:
-                # the two open findings (pymbolic's parser / printer): keep most of the
-                # corpus free of them so they cannot hide anything else
+            if has_left_nested_power(e) and rng.random() < 0.9:
+                # the open finding (pymbolic's printer): keep most of the
+                # corpus free of it so it cannot hide anything else
                 rec.count("regenerated_to_avoid_known_shapes")
                 continue
             check_expr(e, rec)
